@@ -19,10 +19,22 @@
    price; renaming metavariables, comments and layout do not: names are numbered in order of
    first occurrence).  This file is kept small on purpose: it is what gets rebuilt against the
    regenerated rule set. *)
+From Coq Require Import String.
 From JsonSyntax Require Import Base.Prelude Base.Value Model.Macro Model.MacroSyntax Generated.MacroRules
   Proofs.MacroInterp Spec.MacroDoc Proofs.MacroProofs.
 
 Theorem rules_tie : src_rules = model_rules.
+Proof. vm_compute. reflexivity. Qed.
+
+(* the hidden helper macros that the templates invoke (json_vec!, json_unexpected!, json_expect_expr_comma!): their
+   rule sets as the translator renders them, against the ones Model/Macro.v assumes -- json_vec![..] is vec![..] of the
+   same tokens (so OVec / OFromVec hold exactly the elements written), the two others accept only the invocations whose
+   rejection reports a misuse.  Purely syntactic. *)
+Definition model_helpers_shown : list (string * list (string * string)) :=
+  [("json_vec", [("$($v0:tt)*", "vec![$($v0)*]")]);
+   ("json_unexpected", [("", "")]);
+   ("json_expect_expr_comma", [("$v0:expr, $($v1:tt)*", "")])]%string.
+Theorem helpers_tie : src_helpers_shown = model_helpers_shown.
 Proof. vm_compute. reflexivity. Qed.
 
 Lemma rules_count : List.length src_rules = 41%nat /\ List.length rules = 41%nat /\ src_rules_count = 41%nat.
